@@ -257,11 +257,21 @@ class Ctx(object):
     def axis_values(self, labels, kind):
         return self.nparray(labels, kind=kind)
 
-    def mk(self, dims, labels, cells, lkinds=None, kind='f', attrs=None, register=True):
-        """DimArray through the public constructor: values ndarray + (name, label ndarray) pairs"""
+    def mk(self, dims, labels, cells, lkinds=None, kind='f', attrs=None, register=True, layout=None):
+        """DimArray through the public constructor: values ndarray + (name, label ndarray) pairs.
+        layout: memory layout of the value buffer handed to the constructor - None / 'C' (row-major), 'F' (column-major),
+        'strided' (every second element of a longer buffer): the logical content is the same"""
         shape = tuple(len(l) for l in labels)
         lkinds = lkinds or ['i'] * len(dims)
         vals = self.nparray(cells, shape, kind)
+        layout = layout or getattr(self, 'default_layout', None)
+        if layout == 'F' and len(shape) > 1:
+            vals = self.np.asfortranarray(vals)
+        elif layout == 'strided' and len(shape) >= 1 and shape[-1] > 0:
+            wide = self.np.empty(tuple(shape[:-1]) + (2 * shape[-1],), dtype=vals.dtype)
+            wide[..., ::2] = vals
+            wide[..., 1::2] = vals[..., ::-1]
+            vals = wide[..., ::2]
         axes = [(d, self.axis_values(l, k)) for d, l, k in zip(dims, labels, lkinds)]
         a = self.da.DimArray(vals, axes=axes) if dims else self.da.DimArray(vals)
         if attrs:
